@@ -253,15 +253,21 @@ func main(n : int) -> int {
         dict(exc=True, chain=True, shape=True, expect_out="c1\nc2\nc3\n-3\r\nc2\nc3\n-3\r\nc3\n-3\r\n1\r\n", expect_res="I0")))
     # many functions with a clause each: the exception table grows through its capacity steps (the number of entries crosses
     # 2^k - 1); a fault in the LAST emitted function and in the first must still find its own clause
-    N = rng.choice([14, 15, 16, 30, 31, 32]) + rng.range(0, 1)
-    extra = rng.range(0, 1)
-    fs = ["func plain%d(d : int) -> int { d + %d }" % (i, i) for i in range(extra)]
-    fs += ["func f%d(d : int) -> int { %d / d }\ncatch (division_by_zero) { %d }" % (i, 100 + i, 1000 + i) for i in range(N)]
-    picks = [0, N - 1, N // 2, N - 2]
-    body = "".join("    print(f%d(0)); print(f%d(1));\n" % (i, i) for i in picks)
-    exp = "".join("%d\r\n%d\r\n" % (1000 + i, 100 + i) for i in picks)
-    out.append(("exc_many_handlers", "\n".join(fs) + "\nfunc main(n : int) -> int {\n" + body + "    0\n}\n",
-                dict(exc=True, shape=True, handlers=N, expect_out=exp, expect_res="I0")))
+    # T = functions + clauses of the program (main included) swept over a window around the table's capacity steps: the number of
+    # table entries is T plus a constant (entry code, built-in library), so some T of the window makes it exactly 2^k - 1 and some
+    # exactly 2^k; the last plain function (whose block is the last of the table) faults and its caller's clause must get it
+    base = rng.choice([28, 92]) if rng.chance(0.25) else 28
+    for T in range(base, base + 8):
+        N = 12 if base == 28 else 44
+        E = T - (2 * N + 1 + 2)          # main, the wrapper w and its clause
+        fs = ["func f%d(d : int) -> int { %d / d }\ncatch (division_by_zero) { %d }" % (i, 100 + i, 1000 + i) for i in range(N)]
+        fs += ["func w(d : int) -> int { plain%d(d) + plain0(d) }\ncatch (division_by_zero) { 777 }" % (E - 1)]
+        fs += ["func plain%d(d : int) -> int { %d / d }" % (i, 50 + i) for i in range(E)]
+        picks = [0, N - 1, N // 2]
+        body = "".join("    print(f%d(0)); print(f%d(1));\n" % (i, i) for i in picks) + "    print(w(0)); print(w(1));\n"
+        exp = "".join("%d\r\n%d\r\n" % (1000 + i, 100 + i) for i in picks) + "777\r\n%d\r\n" % (50 + E - 1 + 50)
+        out.append(("exc_many_handlers_T%d" % T, "func main(n : int) -> int {\n" + body + "    0\n}\n" + "\n".join(fs) + "\n",
+                    dict(exc=True, shape=True, handlers=T, expect_out=exp, expect_res="I0")))
     # failures of foreign calls are faults like any other: a nil record (also nested, before a non-nil one), a nil string, a
     # missing library, a missing symbol each raise ffi_fail, delivered to the clause of the calling function; the callee is not run
     k = rng.range(1, 9)
